@@ -30,25 +30,27 @@ func (m lockMode) String() string {
 // field Lock of the same struct. Deep: everything reachable through the field.
 type guardEntry struct {
 	Rel, Struct, Field, Lock string
-	Deep                     bool
+	Deep                     bool // everything reachable through the field is guarded
+	ElemWrites               bool // stores into elements reached through the field need the lock exclusively (other goroutines read them under R)
+	fv                       *types.Var
 }
 
 // The frozen guard table (DESIGN.md §2 E1), confirmed by reading every access
 // site and the "protects" comments of the struct declarations.
 var guardTable = []guardEntry{
-	{"server", "Server", "cs", "csMu", false},
-	{"server", "Server", "curElecID", "elecMu", false},
-	{"server", "Server", "curMaster", "elecMu", false},
-	{"rib", "RIB", "niRIB", "nrMu", false},
-	{"rib", "RIB", "pendingEntries", "pendMu", false},
-	{"rib", "RIBHolder", "r", "mu", true},
-	{"rib", "niRefCounter", "NextHop", "mu", false},
-	{"rib", "niRefCounter", "NextHopGroup", "mu", false},
-	{"client", "Client", "sendErr", "sendErrMu", false},
-	{"client", "Client", "readErr", "readErrMu", false},
-	{"client", "clientQs", "sendq", "sendMu", false},
-	{"client", "clientQs", "pendq", "pendMu", true},
-	{"client", "clientQs", "resultq", "resultMu", false},
+	{Rel: "server", Struct: "Server", Field: "cs", Lock: "csMu", Deep: false, ElemWrites: true},
+	{Rel: "server", Struct: "Server", Field: "curElecID", Lock: "elecMu", Deep: false, ElemWrites: false},
+	{Rel: "server", Struct: "Server", Field: "curMaster", Lock: "elecMu", Deep: false, ElemWrites: false},
+	{Rel: "rib", Struct: "RIB", Field: "niRIB", Lock: "nrMu", Deep: false, ElemWrites: false},
+	{Rel: "rib", Struct: "RIB", Field: "pendingEntries", Lock: "pendMu", Deep: false, ElemWrites: false},
+	{Rel: "rib", Struct: "RIBHolder", Field: "r", Lock: "mu", Deep: true, ElemWrites: false},
+	{Rel: "rib", Struct: "niRefCounter", Field: "NextHop", Lock: "mu", Deep: false, ElemWrites: false},
+	{Rel: "rib", Struct: "niRefCounter", Field: "NextHopGroup", Lock: "mu", Deep: false, ElemWrites: false},
+	{Rel: "client", Struct: "Client", Field: "sendErr", Lock: "sendErrMu", Deep: false, ElemWrites: false},
+	{Rel: "client", Struct: "Client", Field: "readErr", Lock: "readErrMu", Deep: false, ElemWrites: false},
+	{Rel: "client", Struct: "clientQs", Field: "sendq", Lock: "sendMu", Deep: false, ElemWrites: false},
+	{Rel: "client", Struct: "clientQs", Field: "pendq", Lock: "pendMu", Deep: true, ElemWrites: false},
+	{Rel: "client", Struct: "clientQs", Field: "resultq", Lock: "resultMu", Deep: false, ElemWrites: false},
 }
 
 // thread roots: the entry points that may run concurrently (DESIGN.md §2 E1.3).
@@ -137,17 +139,29 @@ type lockAnalysis struct {
 	reach       map[*ssa.Function]bool
 	roots       []*ssa.Function
 	nLockFields int
+	acqStar     map[*ssa.Function]map[classMode]string
+	localFails  []localFail
+	localSeen   map[string]bool
+}
+
+type localFail struct {
+	fn     *ssa.Function
+	pos    token.Pos
+	req    lockReq
+	lock   string
+	callee *ssa.Function
 }
 
 func (p *Prog) locks() *lockAnalysis {
 	if p.lockAn != nil {
 		return p.lockAn
 	}
-	la := &lockAnalysis{p: p, guards: map[*types.Var]*guardEntry{}, lockFld: map[*types.Var]string{}, fns: map[*ssa.Function]*fnLocks{}, req: map[*ssa.Function][]lockReq{}, mayBlock: map[*ssa.Function]string{}, reach: map[*ssa.Function]bool{}}
+	la := &lockAnalysis{localSeen: map[string]bool{}, p: p, guards: map[*types.Var]*guardEntry{}, lockFld: map[*types.Var]string{}, fns: map[*ssa.Function]*fnLocks{}, req: map[*ssa.Function][]lockReq{}, mayBlock: map[*ssa.Function]string{}, reach: map[*ssa.Function]bool{}}
 	for i := range guardTable {
 		g := &guardTable[i]
 		if fv := p.Field(g.Rel, g.Struct, g.Field); fv != nil {
 			la.guards[fv] = g
+			g.fv = fv
 		}
 	}
 	// lock classes: every sync.Mutex / sync.RWMutex field of repo structs
@@ -291,7 +305,7 @@ func (la *lockAnalysis) guardFor(v ssa.Value) (*guardEntry, string, bool) {
 			st := x.X.Type().Underlying().(*types.Pointer).Elem().Underlying().(*types.Struct)
 			fv := st.Field(x.Field)
 			if g := la.guards[fv]; g != nil {
-				if direct || g.Deep {
+				if direct || g.Deep || g.ElemWrites {
 					return g, la.path(x.X, 0) + "." + g.Lock, direct
 				}
 				return nil, "", false
@@ -316,6 +330,9 @@ func (la *lockAnalysis) guardFor(v ssa.Value) (*guardEntry, string, bool) {
 		case *ssa.Field:
 			direct = false
 			v = x.X
+		case *ssa.Extract:
+			direct = false
+			v = x.Tuple
 		case *ssa.ChangeType:
 			v = x.X
 		case *ssa.Phi:
@@ -633,12 +650,16 @@ func (la *lockAnalysis) recordAccess(fl *fnLocks, fn *ssa.Function, ins ssa.Inst
 	}
 	switch x := ins.(type) {
 	case *ssa.Store:
-		if g, l, direct := la.guardFor(x.Addr); g != nil && (direct || g.Deep) {
+		if g, l, direct := la.guardFor(x.Addr); g != nil && (direct || g.Deep || g.ElemWrites) {
 			add(g, l, true, "store to "+la.path(x.Addr, 0))
 		}
 	case *ssa.UnOp:
 		if x.Op == token.MUL {
 			if g, l, direct := la.guardFor(x.X); g != nil && (direct || g.Deep) {
+				if direct && g.Deep && la.p.fieldWriteOnce(g.fv) {
+					// the pointer itself is set once by the constructor; only what lies behind it is guarded
+					break
+				}
 				add(g, l, false, "load of "+la.path(x.X, 0))
 			}
 		}
@@ -781,6 +802,17 @@ func (la *lockAnalysis) fixpoint() {
 						continue // wrong mode at the call site: reported there
 					}
 					root := rootIfParam(f, lp)
+					if root == "" {
+						// the callee's requirement lands on an object that is local to f: nobody further up can hold it
+						if !freshIn(f, lp) {
+							key := fmt.Sprintf("%p|%s|%d", f, lp, r.pos)
+							if !la.localSeen[key] {
+								la.localSeen[key] = true
+								la.localFails = append(la.localFails, localFail{fn: f, pos: cs.instr.Pos(), req: r, lock: lp, callee: cs.callee})
+							}
+						}
+						continue
+					}
 					nr := lockReq{lock: lp, mode: r.mode, root: root, guard: r.guard, via: f.String() + " → " + r.via, pos: r.pos, what: r.what}
 					dup := false
 					for _, e := range la.req[f] {
@@ -998,6 +1030,16 @@ func ruleLockDiscipline(c *Ctx, sel lockSel) {
 			}
 		}
 	}
+	if !sel.noGuarded {
+		for _, lf := range la.localFails {
+			class := classOfGuard(lf.req.guard)
+			if !la.reach[lf.fn] || !wantClass(sel, class) || !wantPkg(sel, lf.fn) {
+				continue
+			}
+			c.fail("GUARDED-BY", fnDisplay(lf.fn), fmt.Sprintf("call %s without %s", lf.callee.Name(), class), c.P.pos(lf.pos),
+				fmt.Sprintf("%s (in %s) needs %s (%s) in mode %s, which is not held at this call and cannot be held by callers", lf.req.what, shortVia(lf.req.via), class, lf.lock, lf.req.mode))
+		}
+	}
 	// requirements surviving at the thread roots and at goroutine bodies
 	if !sel.noGuarded {
 		for _, f := range la.order {
@@ -1073,4 +1115,317 @@ func (la *lockAnalysis) isGoBody(f *ssa.Function) bool {
 		}
 	}
 	return false
+}
+
+// ---- lock order ------------------------------------------------------------------
+
+type orderEdge struct {
+	from, to         string // lock classes
+	fromMode, toMode lockMode
+	fn               *ssa.Function
+	pos              token.Pos
+	via              string
+}
+
+type classMode struct {
+	class string
+	mode  lockMode
+}
+
+// acqClosure computes, per function, the lock classes it may acquire itself or
+// in callees (not crossing `go`).
+func (la *lockAnalysis) acqClosure() map[*ssa.Function]map[classMode]string {
+	if la.acqStar != nil {
+		return la.acqStar
+	}
+	res := map[*ssa.Function]map[classMode]string{}
+	for _, f := range la.order {
+		m := map[classMode]string{}
+		for _, a := range la.fns[f].acqs {
+			m[classMode{a.class, a.mode}] = fnDisplay(f)
+		}
+		res[f] = m
+	}
+	for iter := 0; iter < 16; iter++ {
+		changed := false
+		for _, f := range la.order {
+			for _, cs := range la.fns[f].calls {
+				if cs.isGo {
+					continue
+				}
+				for _, callee := range la.calleesOf(cs) {
+					for cm, via := range res[callee] {
+						if _, ok := res[f][cm]; !ok {
+							res[f][cm] = fnDisplay(f) + " → " + via
+							changed = true
+						}
+					}
+				}
+			}
+		}
+		if !changed {
+			break
+		}
+	}
+	la.acqStar = res
+	return res
+}
+
+// calleesOf resolves a call site to analysed functions (static callee, or VTA for dynamic calls).
+func (la *lockAnalysis) calleesOf(cs callSite) []*ssa.Function {
+	if cs.callee != nil {
+		if la.fns[cs.callee] != nil {
+			return []*ssa.Function{cs.callee}
+		}
+		return nil
+	}
+	var out []*ssa.Function
+	if n := la.p.callGraph().g.Nodes[cs.fn]; n != nil {
+		for _, e := range n.Out {
+			if e.Site == cs.instr && la.fns[e.Callee.Func] != nil {
+				out = append(out, e.Callee.Func)
+			}
+		}
+	}
+	return out
+}
+
+// reachFrom computes the analysed functions reachable from the given roots
+// (following calls and `go` statements and nested closures).
+func (la *lockAnalysis) reachFrom(roots []*ssa.Function) map[*ssa.Function]bool {
+	seen := map[*ssa.Function]bool{}
+	var visit func(f *ssa.Function)
+	visit = func(f *ssa.Function) {
+		if f == nil || seen[f] || la.fns[f] == nil {
+			return
+		}
+		seen[f] = true
+		for _, cs := range la.fns[f].calls {
+			for _, callee := range la.calleesOf(cs) {
+				visit(callee)
+			}
+			if cs.isGo && cs.callee != nil {
+				visit(cs.callee)
+			}
+		}
+	}
+	for _, r := range roots {
+		visit(r)
+	}
+	return seen
+}
+
+func (la *lockAnalysis) edgesIn(reach map[*ssa.Function]bool) []orderEdge {
+	acq := la.acqClosure()
+	var out []orderEdge
+	classOfPath := func(fl *fnLocks, lp string) string {
+		for _, a := range fl.acqs {
+			if a.lock == lp {
+				return a.class
+			}
+		}
+		return "?"
+	}
+	for _, f := range la.order {
+		if !reach[f] {
+			continue
+		}
+		fl := la.fns[f]
+		for _, a := range fl.acqs {
+			for hp, hm := range a.held {
+				if hp == a.lock {
+					continue
+				}
+				out = append(out, orderEdge{classOfPath(fl, hp), a.class, hm, a.mode, f, a.pos, fnDisplay(f)})
+			}
+		}
+		for _, cs := range fl.calls {
+			if cs.isGo || len(cs.may) == 0 {
+				continue
+			}
+			for _, callee := range la.calleesOf(cs) {
+				for cm, via := range acq[callee] {
+					for hp, hm := range cs.may {
+						out = append(out, orderEdge{classOfPath(fl, hp), cm.class, hm, cm.mode, f, cs.instr.Pos(), fnDisplay(f) + " → " + via})
+					}
+				}
+			}
+		}
+	}
+	return out
+}
+
+type mhpGroup struct {
+	name  string
+	roots [][3]string
+}
+
+// The frozen MHP table (DESIGN.md §2 E1.3).
+var mhpGroups = []mhpGroup{
+	{"server RPCs (any number of Modify, Get, Flush concurrently)", [][3]string{{"server", "Server", "Modify"}, {"server", "Server", "Get"}, {"server", "Server", "Flush"}}},
+	{"client data plane (Q, AwaitConverged, Pending, Results, Status, AckResult and the sender/receiver goroutines)", [][3]string{{"client", "Client", "Q"}, {"client", "Client", "AwaitConverged"}, {"client", "Client", "Pending"}, {"client", "Client", "Results"}, {"client", "Client", "Status"}, {"client", "Client", "AckResult"}, {"client", "Client", "Connect"}}},
+	{"client Reset while the application keeps queueing", [][3]string{{"client", "Client", "Reset"}, {"client", "Client", "Q"}}},
+	{"client Close while the application keeps queueing", [][3]string{{"client", "Client", "Close"}, {"client", "Client", "Q"}}},
+	{"client StartSending while the application keeps queueing", [][3]string{{"client", "Client", "StartSending"}, {"client", "Client", "Q"}}},
+}
+
+// ruleLockOrder reports lock-order cycles inside each MHP group.
+func ruleLockOrder(c *Ctx, groupPrefix string) {
+	const rule = "LOCK-ORDER"
+	la := c.P.locks()
+	for _, g := range mhpGroups {
+		if !strings.HasPrefix(g.name, groupPrefix) {
+			continue
+		}
+		var roots []*ssa.Function
+		for _, r := range g.roots {
+			if fi := c.P.Func(r[0], r[1], r[2]); fi != nil && fi.SSA != nil {
+				roots = append(roots, fi.SSA)
+				if r[2] == "Connect" {
+					// only its goroutines run concurrently with the data plane
+					roots = roots[:len(roots)-1]
+					for _, cs := range la.fns[fi.SSA].calls {
+						if cs.isGo && cs.callee != nil {
+							roots = append(roots, cs.callee)
+						}
+					}
+				}
+			}
+		}
+		reach := la.reachFrom(roots)
+		edges := la.edgesIn(reach)
+		// W acquirers per class inside the group
+		hasW := map[string]bool{}
+		for f := range reach {
+			for _, a := range la.fns[f].acqs {
+				if a.mode == modeW {
+					hasW[a.class] = true
+				}
+			}
+		}
+		adj := map[string][]orderEdge{}
+		nEdges := 0
+		var dropped []string
+		for _, e := range edges {
+			if e.toMode == modeR && !hasW[e.to] {
+				dropped = append(dropped, fmt.Sprintf("%s(%s)→%s(R) at %s: no exclusive acquirer of %s is reachable in this group, a read acquisition cannot block", e.from, e.fromMode, e.to, e.via, e.to))
+				continue
+			}
+			adj[e.from] = append(adj[e.from], e)
+			nEdges++
+		}
+		c.Sites += len(edges)
+		// self loops
+		bad := 0
+		for cls, es := range adj {
+			for _, e := range es {
+				if e.to == cls {
+					if ok, why := sameClassNestingOK(c, e); ok {
+						c.note("lock order: nested acquisition of %s at %s accepted: %s", cls, e.via, why)
+					} else {
+						bad++
+						c.fail(rule, fnDisplay(e.fn), "nested "+cls, c.P.pos(e.pos), "acquires "+cls+" of a second instance while holding one, without a fixed instance order: "+why)
+					}
+				}
+			}
+		}
+		// simple cycles over distinct classes (DFS)
+		var classes []string
+		for cls := range adj {
+			classes = append(classes, cls)
+		}
+		sort.Strings(classes)
+		reported := map[string]bool{}
+		var dfs func(start, cur string, path []orderEdge, seen map[string]bool)
+		dfs = func(start, cur string, path []orderEdge, seen map[string]bool) {
+			for _, e := range adj[cur] {
+				if e.to == cur {
+					continue
+				}
+				if e.to == start && len(path) >= 1 {
+					cyc := append(append([]orderEdge(nil), path...), e)
+					var names []string
+					allR := true
+					for _, ce := range cyc {
+						names = append(names, ce.from)
+						if ce.fromMode == modeW || ce.toMode == modeW {
+							allR = false
+						}
+					}
+					sort.Strings(names)
+					key := strings.Join(names, "↔")
+					if reported[key] {
+						continue
+					}
+					reported[key] = true
+					var desc []string
+					for _, ce := range cyc {
+						desc = append(desc, fmt.Sprintf("%s(%s)→%s(%s) in %s", ce.from, ce.fromMode, ce.to, ce.toMode, ce.via))
+					}
+					if allR {
+						c.note("lock order [%s]: read-only cycle %s — can deadlock only with a writer pending on every lock of the cycle at once; recorded, not reported: %s", g.name, key, strings.Join(desc, "; "))
+					} else {
+						bad++
+						c.fail(rule, "group: "+g.name, "cycle "+key, c.P.pos(e.pos), "lock-order cycle among code that may run concurrently: "+strings.Join(desc, "; "))
+					}
+					continue
+				}
+				if seen[e.to] {
+					continue
+				}
+				seen[e.to] = true
+				dfs(start, e.to, append(path, e), seen)
+				delete(seen, e.to)
+			}
+		}
+		for _, s := range classes {
+			dfs(s, s, nil, map[string]bool{s: true})
+		}
+		for _, d := range dropped {
+			c.note("lock order [%s]: edge dropped: %s", g.name, d)
+		}
+		if bad == 0 {
+			c.ok(rule, "group: "+g.name, "acyclic", "-", fmt.Sprintf("%d functions reachable, %d blocking order edges over %d lock classes, no cycle with an exclusive acquisition", len(reach), nEdges, len(classes)))
+		}
+	}
+}
+
+// sameClassNestingOK: nested RIBHolder.mu acquisition is accepted only in
+// RIB.Flush and only if every caller passes a single name or the sorted list
+// from KnownNetworkInstances().
+func sameClassNestingOK(c *Ctx, e orderEdge) (bool, string) {
+	d := declaredOf(e.fn)
+	if d == nil || d.Name() != "Flush" || recvTypeName(d) != "RIB" {
+		return false, "only RIB.Flush is audited for nested same-class locking"
+	}
+	cg := c.P.callGraph()
+	for _, caller := range cg.callersOf(d) {
+		fi := c.P.infoFor(caller)
+		if fi == nil {
+			return false, "caller " + caller.FullName() + " not analysable"
+		}
+		info := fi.Pkg.TypesInfo
+		ok := true
+		why := ""
+		for _, call := range callsIn(fi.Decl.Body) {
+			if calleeObj(info, call) != d || len(call.Args) != 1 {
+				continue
+			}
+			v, isVar := objOfIdent(info, call.Args[0]).(*types.Var)
+			if !isVar {
+				ok, why = false, "argument is not a local variable"
+				continue
+			}
+			// every assignment to v
+			ast_inspectAssign(info, fi, v, func(rhs string, good bool) {
+				if !good {
+					ok, why = false, "instance list assigned from "+rhs
+				}
+			})
+		}
+		if !ok {
+			return false, "caller " + displayName(caller) + ": " + why
+		}
+	}
+	return true, "every caller passes a single instance name or the sorted KnownNetworkInstances() list, so all flushes lock instances in one global order"
 }
